@@ -110,7 +110,20 @@ AtomOp(mm_, dd_) ==
     /\ obs' = [kind |-> "atomop", p |-> SrcP(mm_, dd_), w |-> SrcW(mm_, dd_), pa |-> FALSE, wa |-> FALSE]
     /\ UNCHANGED objs
 
+\* a rotated atomic grid (seeded rotation of every shell) and a molecular grid of two atoms: both are
+\* built from internal angular grids exactly like NewAtom; they differ in what the harness measures
+\* (orthogonal image of the shipped points / concatenation with atom-in-molecule weights)
+NewAtomRot(mm_, dd_) ==
+    /\ cache' = CacheAfter(mm_, dd_, TRUE)
+    /\ obs' = [kind |-> "atomrot", p |-> SrcP(mm_, dd_), w |-> SrcW(mm_, dd_), pa |-> FALSE, wa |-> FALSE]
+    /\ UNCHANGED objs
+NewMol(mm_, dd_) ==
+    /\ cache' = CacheAfter(mm_, dd_, TRUE)
+    /\ obs' = [kind |-> "mol", p |-> SrcP(mm_, dd_), w |-> SrcW(mm_, dd_), pa |-> FALSE, wa |-> FALSE]
+    /\ UNCHANGED objs
+
 Next == \/ \E mm_ \in Methods, dd_ \in Degrees, ff_ \in BOOLEAN : NewAngular(mm_, dd_, ff_)
+        \/ \E mm_ \in Methods, dd_ \in Degrees : NewAtomRot(mm_, dd_) \/ NewMol(mm_, dd_)
         \/ \E i_ \in 1..MaxObjs, pp_ \in {"p", "w"} : Edit(i_, pp_)
         \/ \E i_ \in 1..MaxObjs : Drop(i_)
         \/ \E mm_ \in Methods, dd_ \in Degrees : NewAtom(mm_, dd_) \/ Shell(mm_, dd_) \/ AtomOp(mm_, dd_)
